@@ -70,6 +70,29 @@ func (c *Ctx) Check(rule, construct string, pos token.Pos, ok bool, detail strin
 	return ok
 }
 
+// Borrow runs another property's rule function on a scratch context and adopts the obligations it records under
+// fromRule (those keep accepts) as obligations of this property under toRule. Used where one structural fact is a
+// necessary condition of several properties but its check lives inside the other property's rule function.
+func (c *Ctx) Borrow(run func(*Ctx), fromRule, toRule string, keep func(construct string) bool) int {
+	c2 := newCtx(c.P, c.Prop)
+	run(c2)
+	n := 0
+	for _, o := range c2.Obls {
+		if o.Rule != fromRule || (keep != nil && !keep(o.Construct)) {
+			continue
+		}
+		n++
+		key := toRule + "|" + o.Construct
+		if c.seen[key] {
+			continue
+		}
+		c.seen[key] = true
+		o.Rule = toRule
+		c.Obls = append(c.Obls, o)
+	}
+	return n
+}
+
 // Unresolved records an anchor that could not be found: always a failure.
 func (c *Ctx) Unresolved(rule, what string) {
 	c.Obls = append(c.Obls, Obligation{Rule: rule, Construct: "UNRESOLVED-ANCHOR " + what, OK: false, Detail: "anchor could not be resolved in the loaded program; the rule cannot decide"})
